@@ -16,6 +16,7 @@ func C11(p *core.Prog, rep *core.Report) {
 	bd2Sign(p, rep)
 	bd4Window(p, rep)
 	wr1SingleWrite(p, rep)
+	eof1(p, rep)
 	rep.Assumptions = append(rep.Assumptions, "the variable of the pad/skip predicates ranges over [0, blockSize): it is produced by '% blockSize' (writer) and reset at block boundaries (reader)")
 	rep.NotCovered = append(rep.NotCovered, "the round trip itself: every min()/%/+header boundary case over all (offset, length) pairs; byte equality; both back-ends storing identical bytes (no solver is used)")
 }
@@ -26,6 +27,7 @@ func C12(p *core.Prog, rep *core.Report) {
 	bd3Crc(p, rep)
 	bd4Window(p, rep)
 	ps8Readers(p, rep, "read")
+	eof1(p, rep)
 	rep.Assumptions = append(rep.Assumptions, "content that passes CRC-32 is trusted by the post-checksum decoders (negative or oversized varint lengths inside a CRC-valid record are not guarded)")
 	rep.NotCovered = append(rep.NotCovered, "'returns the originally written value' (value equality); CRC collisions; panics in post-checksum decoders on crafted CRC-valid content")
 }
